@@ -14,7 +14,13 @@
 (***************************************************************************)
 EXTENDS Integers, Sequences, FiniteSets, TLC, Json, SequencesExt
 CONSTANTS MaxDecls,     \* bound on declarations per kind
-          Tricky        \* TRUE: identifier pools contain names that start with keywords (i32x, doubleValue, voidable ...)
+          Tricky,       \* TRUE: identifier pools contain names that start with keywords (i32x, doubleValue, voidable ...)
+          EmitAt,       \* programs are emitted after this many steps
+          WithBreaks,   \* TRUE: the last step of a walk may be one invalidating edit
+          Hard          \* "none", or one family of valid constructs the generators are known to mishandle; the last step of a
+                        \* walk then adds that construct (C11 keeps these apart from all other programs so that a recorded
+                        \* finding cannot hide a new one): "keywords" = identifiers that are reserved words of a target
+                        \* language, "container-keys" = set elements / map keys of container type
 NONE == -99
 \* ---- types ----
 B(n) == [k |-> "base", n |-> n]
@@ -36,7 +42,7 @@ OpNames == {"Created", "op2"}
 \* ---- helpers ----
 Idx(s) == 1..Len(s)
 Names(s) == {s[i].name : i \in Idx(s)}
-Empty == [ns |-> <<>>, include |-> FALSE, typedefs |-> <<>>, enums |-> <<>>, consts |-> <<>>, structs |-> <<>>, services |-> <<>>, scopes |-> <<>>]
+Empty == [ns |-> <<>>, include |-> FALSE, badinclude |-> FALSE, typedefs |-> <<>>, enums |-> <<>>, consts |-> <<>>, structs |-> <<>>, services |-> <<>>, scopes |-> <<>>]
 Declared(p) == Names(p.typedefs) \cup Names(p.enums) \cup Names(p.structs)
 \* user types a field may refer to
 Refs(p) == {R(n) : n \in Declared(p)} \cup (IF p.include THEN {R("inc.Ext"), R("inc.ExtE")} ELSE {})
@@ -45,6 +51,7 @@ Leafs(p) == BaseTypes \cup Refs(p)
 Types(p) == Leafs(p) \cup {L(t) : t \in {B("i32"), B("string")} \cup Refs(p)}
                      \cup {S(B("string")), S(B("i64")), M(B("string"), B("i32")), M(B("i32"), L(B("string")))}
                      \cup {M(B("string"), t) : t \in Refs(p)} \cup {L(M(B("string"), S(B("i32"))))}
+                     \cup {S(R(n)) : n \in Names(p.structs)} \cup {M(R(n), B("string")) : n \in Names(p.enums)} \cup {L(L(B("i32")))}
 \* default values by type (none, or one literal of the right shape)
 Defaults(t) == {[k |-> "none"]} \cup
   (CASE t = B("i32") -> {[k |-> "int", i |-> 5], [k |-> "int", i |-> -7]}
@@ -60,7 +67,24 @@ Reqs == {"required", "optional", "default"}
 UniqueNames(s) == \A i, j \in Idx(s) : i # j => s[i].name # s[j].name
 UniqueIds(fs) == \A i, j \in Idx(fs) : i # j => fs[i].id # fs[j].id
 FieldsOK(p, fs) == UniqueNames(fs) /\ UniqueIds(fs) /\ \A i \in Idx(fs) : fs[i].t \in Types(p)
+\* typedef chains terminate
+RECURSIVE Reaches(_, _, _, _)
+Reaches(q, from, target, fuel) ==
+  /\ fuel > 0
+  /\ \E i \in Idx(q.typedefs) : /\ q.typedefs[i].name = from /\ q.typedefs[i].t.k = "ref"
+       /\ (q.typedefs[i].t.n = target \/ Reaches(q, q.typedefs[i].t.n, target, fuel - 1))
+NoTypedefCycle(q) == \A i \in Idx(q.typedefs) : ~Reaches(q, q.typedefs[i].name, q.typedefs[i].name, 4)
+ExceptionNames(q) == {q.structs[i].name : i \in {j \in Idx(q.structs) : q.structs[j].kind = "exception"}}
+DefaultFits(f) == f.dflt \in Defaults(f.t)
 Valid(p) ==
+  /\ ~p.badinclude /\ NoTypedefCycle(p)
+  /\ \A i \in Idx(p.typedefs) : p.typedefs[i].t \in Types(p)
+  /\ \A i \in Idx(p.structs) : \A f \in Idx(p.structs[i].fields) : DefaultFits(p.structs[i].fields[f])
+  /\ \A i \in Idx(p.services) : /\ p.services[i].extends \in {"", "inc.ExtSvc"} \cup Names(p.services)
+        /\ \A m \in Idx(p.services[i].methods) : \A t \in Idx(p.services[i].methods[m].throws) :
+              p.services[i].methods[m].throws[t].t \in {R(x) : x \in ExceptionNames(p)}
+  /\ \A i \in Idx(p.scopes) : LET vs == SelectSeq(p.scopes[i].prefix, LAMBDA t : Len(t) > 0 /\ SubSeq(t, 1, 1) = "{") IN
+        \A a, b \in Idx(vs) : a # b => vs[a] # vs[b]
   /\ UniqueNames(p.typedefs \o p.enums \o p.structs) /\ UniqueNames(p.consts) /\ UniqueNames(p.services) /\ UniqueNames(p.scopes)
   /\ \A i \in Idx(p.structs) : FieldsOK(p, p.structs[i].fields)
   /\ \A i \in Idx(p.enums) : UniqueNames(p.enums[i].vals)
@@ -79,9 +103,9 @@ EnumNumbering(vals) == NumberFrom(vals, 1, -1)
 \* requiredness as parsed: union members are optional whatever is written; everything else as written
 EffReq(kind, req) == IF kind = "union" THEN "optional" ELSE req
 \* ---- state machine: build a program declaration by declaration ----
-VARIABLES p, steps
-vars == <<p, steps>>
-Init == p = Empty /\ steps = 0
+VARIABLES p, steps, broken
+vars == <<p, steps, broken>>
+Init == p = Empty /\ steps = 0 /\ broken = "none"
 Fields(p0, n, kind) ==
   {fs \in UNION {[1..k -> [id : {1, 2, 3, 7}, req : (IF kind \in {"args", "throws"} THEN {"default"} ELSE Reqs), t : {B("i32")}, name : FieldNames]] : k \in 0..n} : TRUE}
 \* (field lists are chosen step by step below; Fields is only documentation of the shape)
@@ -149,15 +173,58 @@ AddScope == /\ Len(p.scopes) < MaxDecls
 AddOp == \E s \in Idx(p.scopes) : /\ Len(p.scopes[s].ops) < 2
            /\ \E n \in OpNames \ Names(p.scopes[s].ops), t \in Types(p) :
                 p' = [p EXCEPT !.scopes[s].ops = Append(@, [name |-> n, t |-> t])]
-Next == /\ steps' = steps + 1
-        /\ \/ AddNs \/ AddInclude \/ AddTypedef \/ AddEnum \/ AddEnumValue \/ AddConst \/ AddEnumConst \/ AddStruct \/ AddField \/ Annotate
-           \/ AddService \/ AddMethod \/ AddArg \/ AddThrow \/ AddScope \/ AddOp
+AddAny == \/ AddNs \/ AddInclude \/ AddTypedef \/ AddEnum \/ AddEnumValue \/ AddConst \/ AddEnumConst \/ AddStruct \/ AddField \/ Annotate
+          \/ AddService \/ AddMethod \/ AddArg \/ AddThrow \/ AddScope \/ AddOp
+\* ---- invalidating edits: exactly one, as the last step of a walk (C11: every other input gets a diagnostic) ----
+F0(id, t, n) == [id |-> id, req |-> "default", t |-> t, name |-> n, dflt |-> [k |-> "none"]]
+Brk(q, how) == p' = q /\ broken' = how
+Break ==
+  \/ \E s \in Idx(p.structs) : Brk([p EXCEPT !.structs[s].fields = Append(@, F0(15, R("Missing"), "dangling"))], "dangling-type")
+  \/ \E s \in Idx(p.structs) : p.structs[s].fields # <<>> /\
+        Brk([p EXCEPT !.structs[s].fields = Append(@, F0(p.structs[s].fields[1].id, B("i32"), "dupid"))], "duplicate-field-id")
+  \/ \E s \in Idx(p.structs) : p.structs[s].fields # <<>> /\
+        Brk([p EXCEPT !.structs[s].fields = Append(@, F0(14, B("i32"), p.structs[s].fields[1].name))], "duplicate-field-name")
+  \/ Brk([p EXCEPT !.typedefs = Append(@, [name |-> "Cyc", t |-> R("Cyc")])], "typedef-cycle-1")
+  \/ Brk([p EXCEPT !.typedefs = Append(Append(@, [name |-> "CycA", t |-> R("CycB")]), [name |-> "CycB", t |-> R("CycA")])], "typedef-cycle-2")
+  \/ Brk([p EXCEPT !.typedefs = Append(Append(Append(@, [name |-> "CycA", t |-> R("CycB")]), [name |-> "CycB", t |-> R("CycC")]), [name |-> "CycC", t |-> R("CycA")])], "typedef-cycle-3")
+  \/ \E s \in Idx(p.services) : Brk([p EXCEPT !.services[s].methods = Append(@, [name |-> "badow", oneway |-> TRUE, ret |-> <<B("i32")>>, args |-> <<>>, throws |-> <<>>])], "oneway-with-result")
+  \/ \E s \in Idx(p.services) : Exceptions(p) # {} /\
+        Brk([p EXCEPT !.services[s].methods = Append(@, [name |-> "badow", oneway |-> TRUE, ret |-> <<>>, args |-> <<>>,
+              throws |-> <<F0(1, R(CHOOSE x \in Exceptions(p) : TRUE), "ex")>>])], "oneway-with-throws")
+  \/ Brk([p EXCEPT !.badinclude = TRUE], "bad-include")
+  \/ \E s \in Idx(p.structs) : Brk([p EXCEPT !.structs = Append(@, [kind |-> "struct", name |-> p.structs[s].name, fields |-> <<>>, ann |-> FALSE])], "duplicate-struct-name")
+  \/ \E e \in Idx(p.enums) : p.enums[e].vals # <<>> /\
+        Brk([p EXCEPT !.enums[e].vals = Append(@, [name |-> p.enums[e].vals[1].name, explicit |-> 40])], "duplicate-enum-value-name")
+  \/ \E s \in Idx(p.services) : Brk([p EXCEPT !.services[s].extends = "NoSuchService"], "extends-missing")
+  \/ \E s \in Idx(p.services) : \E m \in Idx(p.services[s].methods) : ~p.services[s].methods[m].oneway /\
+        Brk([p EXCEPT !.services[s].methods[m].throws = Append(@, F0(9, B("i32"), "notex"))], "throws-non-exception")
+  \/ \E s \in Idx(p.structs) : Brk([p EXCEPT !.structs[s].fields = Append(@, [id |-> 13, req |-> "default", t |-> B("i32"), name |-> "wrongdflt", dflt |-> [k |-> "str", s |-> "text"]])], "default-of-wrong-type")
+  \/ \E s \in Idx(p.services) : \E m \in Idx(p.services[s].methods) : p.services[s].methods[m].args # <<>> /\
+        Brk([p EXCEPT !.services[s].methods[m].args = Append(@, F0(12, B("i32"), p.services[s].methods[m].args[1].name))], "duplicate-argument-name")
+  \/ \E c \in Idx(p.scopes) : Brk([p EXCEPT !.scopes[c].prefix = <<"{usr}", "x", "{usr}">>], "duplicate-prefix-variable")
+\* ---- valid but hard constructs: exactly one family, as the last step of a walk ----
+KwNames == <<"type", "def", "class", "func", "return">>
+KwFields == [i \in 1..5 |-> F0(i, B("i32"), KwNames[i])]
+Harden ==
+  \/ /\ Hard = "keywords"
+     /\ Brk([p EXCEPT !.structs = Append(@, [kind |-> "struct", name |-> "KwS", fields |-> KwFields, ann |-> FALSE]),
+                      !.services = Append(@, [name |-> "KwSvc", extends |-> "", methods |->
+                                     <<[name |-> "kw", oneway |-> FALSE, ret |-> <<>>, args |-> KwFields, throws |-> <<>>]>>])], "hard:keywords")
+  \/ /\ Hard = "container-keys"
+     /\ Brk([p EXCEPT !.structs = Append(@, [kind |-> "struct", name |-> "CkS", ann |-> FALSE, fields |->
+                  <<F0(1, S(L(B("i32"))), "sl"), F0(2, M(L(B("string")), B("i32")), "ml")>>])], "hard:container-keys")
+IsHard(b) == b \in {"hard:keywords", "hard:container-keys"}
+Next == /\ steps' = steps + 1 /\ broken = "none"
+        /\ \/ (steps = EmitAt - 1 /\ WithBreaks /\ Break)
+           \/ (steps = EmitAt - 1 /\ Hard # "none" /\ Harden)
+           \/ (~(steps = EmitAt - 1 /\ Hard # "none") /\ UNCHANGED broken /\ AddAny)
+
 Spec == Init /\ [][Next]_vars
 \* every reachable program is valid (the guards are the well-formedness conditions)
-AlwaysValid == Valid(p)
+\* (Valid knows the type pool of the builder; the hard families step outside it in their field types only)
+AlwaysValid == IF IsHard(broken) THEN TRUE ELSE (broken = "none") <=> Valid(p)
 \* what the parser must report: the program with its enums numbered
 Expected(q) == [q EXCEPT !.enums = [i \in Idx(q.enums) |-> [name |-> q.enums[i].name, vals |-> q.enums[i].vals, numbered |-> EnumNumbering(q.enums[i].vals)]]]
-CONSTANT EmitAt
-Emit == (steps = EmitAt) => PrintT("PROG " \o ToJson(Expected(p)))
+Emit == (steps = EmitAt) => PrintT("PROG " \o ToJson([Expected(p) EXCEPT !.ns = p.ns] @@ [broken |-> broken]))
 Bounded == steps <= EmitAt
 =============================================================================
